@@ -33,6 +33,7 @@ fn add<S: Subject>(jobs: &mut Vec<Box<dyn JobT>>, variant: &str, w: Weights, ex:
     jobs.push(
         job(label, q, t, { let pc = pc.clone(); move || plan_strategy(&pc) }, move |p: &Plan, st: &mut Stats| check_model::<S>(p, &ctx, st, &partial_key_remove::<S>, "Map read differs from the observed-remove / reset-remove specification"))
             .decoder({ let pc = pc.clone(); move |d: &[u8]| decode_plan(&pc, d) })
+            .encoder({ let pc = pc.clone(); move |t: &Plan| encode_plan(&pc, t) })
             .floor("nontrivial", 0.02)
             .boxed(),
     );
